@@ -146,8 +146,20 @@ def reader_slices(work):
         sl.sub("L9:constructor arguments of exceptions that only carry a message", r"XMLReaderError\([^;]*\)", "XMLReaderError()")
         X.lower_exceptions(sl, dflt, EXC)
         fl.append(sl)
-    write(work, "xr_funcs.inc", "\n".join(s.text for s in fl) + "\n")
-    return out + fl
+    # file-local static helpers a refactoring may have split off the sliced reader functions come along, with the same lowering
+    used = "".join(s.text for s in fl)
+    helpers = []
+    for h in X.static_helpers(src):
+        hname = h.name.split()[-1]
+        if re.search(r"\b%s\(" % re.escape(hname), used) and hname not in ("is_blank",):
+            rt = re.match(r"static\s+(?:inline\s+)?([\w:<>\*&\s]+?)\s*\b%s\s*\(" % re.escape(hname), h.text)
+            ret = (rt.group(1).strip() if rt else "void")
+            dflt = "" if ret == "void" else ("false" if ret == "bool" else ("std::string()" if "string" in ret else "0"))
+            h.sub("L4:T{...}->T(...)", r"TypeException\{([^{}]*)\}", r"TypeException(\1)")
+            X.lower_exceptions(h, dflt, EXC)
+            helpers.append(h)
+    write(work, "xr_funcs.inc", "\n".join(s.text for s in helpers + fl) + "\n")
+    return out + helpers + fl
 
 
 def reader_jobs(work, builder, for_c06=False, tier="quick"):
